@@ -23,6 +23,9 @@ pub static LAST_START: core::sync::atomic::AtomicUsize = core::sync::atomic::Ato
 pub static SAME_START_RUN: core::sync::atomic::AtomicUsize = core::sync::atomic::AtomicUsize::new(0);
 pub static MAX_SAME_START_RUN: core::sync::atomic::AtomicUsize = core::sync::atomic::AtomicUsize::new(0);
 pub static START_DECREASES: core::sync::atomic::AtomicUsize = core::sync::atomic::AtomicUsize::new(0);
+/// Lowest start address and highest end address of any scanned slice (0 = none yet).
+pub static MIN_START: core::sync::atomic::AtomicUsize = core::sync::atomic::AtomicUsize::new(0);
+pub static MAX_END: core::sync::atomic::AtomicUsize = core::sync::atomic::AtomicUsize::new(0);
 
 #[inline(always)]
 fn note_scan(hay: &[u8]) {
@@ -38,6 +41,19 @@ fn note_scan(hay: &[u8]) {
         MAX_SAME_START_RUN.store(run, Relaxed);
     }
     LAST_START.store(p, Relaxed);
+    let lo = MIN_START.load(Relaxed);
+    if lo == 0 || p < lo {
+        MIN_START.store(p, Relaxed);
+    }
+    if p + hay.len() > MAX_END.load(Relaxed) {
+        MAX_END.store(p + hay.len(), Relaxed);
+    }
+}
+
+/// (lowest start address, highest end address) over all scans since the last reset; (0, 0) if none.
+pub fn model_scan_range() -> (usize, usize) {
+    use core::sync::atomic::Ordering::Relaxed;
+    (MIN_START.load(Relaxed), MAX_END.load(Relaxed))
 }
 
 pub fn model_scanned_reset() {
@@ -47,6 +63,8 @@ pub fn model_scanned_reset() {
     SAME_START_RUN.store(0, Relaxed);
     MAX_SAME_START_RUN.store(0, Relaxed);
     START_DECREASES.store(0, Relaxed);
+    MIN_START.store(0, Relaxed);
+    MAX_END.store(0, Relaxed);
 }
 
 /// (longest run of scans starting at the same address, scans that started
